@@ -405,3 +405,39 @@ def c07OK (t : Tables) (w : Wrapper) : Bool :=
   (paths w.treeSome).all (fun Ps => (paths w.treeNone).all (fun Pn => opposite Ps.1 Pn.1 || outcomeAgree t Ps Pn))
 
 end IRModel.Wrap
+
+/-! ### C03 at wrapper level: every frame `encode()` emits, for repeat_count 0, 1, 2 -/
+namespace IRModel.Wrap
+open IRModel IRModel.Py IRModel.Proto IRModel.Engine
+
+/-- a `_build_packet` call with keyword fields only, one for every `_parameters` entry, safe and of the declared widths -/
+def packetOK (t : Tables) (p : Packet) : Bool :=
+  p.args.isEmpty &&
+  t.params.all (fun prm =>
+    match p.kwargs.find? (fun k => k.1 == prm.1) with
+    | some k => safe [] [] k.2.2 && (!k.2.1 || staticW [] k.2.2 == some (prm.2.2 + 1 - prm.2.1))
+    | none => false)
+
+/-- a literal frame (hand-assembled repeat / ditto frame): mark first, alternating, space last, no zero; and the
+    frame period where the protocol has one -/
+def litOK (t : Tables) (ds : List Int) : Bool :=
+  altP ds && !ds.isEmpty && (decide (t.leadOut.getLastD 0 ≤ 0) || Py.sumAbs ds == t.leadOut.getLastD 0)
+
+def traceOK (t : Tables) (tr : EncTrace) : Bool :=
+  tr.packets.all (packetOK t) && !tr.frames.isEmpty &&
+  tr.frames.all (fun r => match r with
+    | .packet k => decide (k < tr.packets.length)
+    | .lit ds => litOK t ds)
+
+def frameCount (w : Wrapper) (rc : Nat) : Nat := match w.enc[rc]? with | some tr => tr.frames.length | none => 0
+
+/-- **C03 at wrapper level**, the decidable obligation: traces for repeat_count 0, 1, 2; every frame is a well-formed
+    packet or literal; the number of frames grows by the same positive amount per repeat; the code carries the
+    protocol's carrier frequency -/
+def c03OK (t : Tables) (w : Wrapper) : Bool :=
+  w.enc.length == 3 && w.enc.all (traceOK t) &&
+  decide (frameCount w 0 < frameCount w 1) &&
+  decide (frameCount w 1 - frameCount w 0 = frameCount w 2 - frameCount w 1) && decide (frameCount w 1 < frameCount w 2) &&
+  (w.frequency == some t.frequency)
+
+end IRModel.Wrap
